@@ -68,6 +68,10 @@ def parse(rel: str) -> ast.Module:
         from . import alpha
 
         alpha.restore(tree, rel)
+        if os.environ.get("VERIF_NO_CANON") != "1":
+            from . import canon
+
+            canon.normalise(tree)
         for node in ast.walk(tree):
             for ch in ast.iter_child_nodes(node):
                 ch._parent = node  # type: ignore[attr-defined]
